@@ -668,20 +668,40 @@ func c09GenHistory(h *H) *c09Hist {
 	x := c09NewHist(h)
 	x.backup()
 	nops := 2 + h.Intn(6)
+	dbg := os.Getenv("RESTIC_VERIF_DEBUG") != ""
 	for i := 0; i < nops; i++ {
-		switch r := h.Intn(20); {
+		op := ""
+		r := h.Intn(20)
+		if x.labels["dropped-unused-pack"] || x.labels["dropped-redundant-pack"] {
+			// the index now names a missing pack: a new backup would deduplicate against blobs that
+			// are gone (damage not caused by prune), so no more backups in this history
+			if r < 7 || (r >= 11 && r < 16) {
+				r = 7 + h.Intn(4) + 7*h.Intn(2) // forget or interrupted prune / drop
+			}
+		}
+		switch {
 		case r < 7:
+			op = "backup"
 			x.backup()
 		case r < 11:
+			op = "forget"
 			x.forgetOne()
 		case r < 14:
+			op = "concurrent"
 			x.concurrentBackups()
 		case r < 16:
+			op = "interrupted-backup"
 			x.interruptedBackup()
 		case r < 18:
+			op = "interrupted-prune"
 			x.interruptedPrune()
 		default:
+			op = "drop-pack"
 			x.dropPack()
+		}
+		if dbg {
+			_, ok := c09DumpHashes(x.be, c09Snapshots(x.be))
+			fmt.Fprintf(os.Stderr, "history op %d %s: all snapshots dumpable=%v packs=%d\n", i, op, ok, len(DumpBackend(x.be).Names("data")))
 		}
 	}
 	if h.Intn(2) == 0 {
@@ -970,7 +990,13 @@ func streamC09(h *H) {
 		nopt = 5
 	}
 	for i := 0; i < nh; i++ {
-		x := c09GenHistory(h)
+		var x *c09Hist
+		if panicked, msg := Protect(func() { x = c09GenHistory(h) }); panicked {
+			h.Case("skip")
+			h.Rec("why", "history-generation-failed", HexS(msg[:min(len(msg), 200)]))
+			h.End()
+			continue
+		}
 		run, ok := c09Prepare(x)
 		if !ok {
 			h.Case("skip")
@@ -1006,7 +1032,10 @@ func streamC10(h *H) {
 	// (b) completed full prunes of real histories: after-state and reported statistics
 	nh := h.N(8, 120)
 	for i := 0; i < nh; i++ {
-		x := c09GenHistory(h)
+		var x *c09Hist
+		if panicked, _ := Protect(func() { x = c09GenHistory(h) }); panicked {
+			continue
+		}
 		run, ok := c09Prepare(x)
 		if ok {
 			run.o = c09Opts{MaxRepack: ^uint64(0), MaxUnused: h.Pick([]string{"0", "0%"}), Version: 2}
